@@ -195,6 +195,12 @@ def shapes(tier):
             add("variant_bare_under_enum_default", decl, hsrc,
                 [Harness("own_attribute_under_enum_default", "caller options, variant and probe ids symbolic", covers=2, unwind=10,
                          asserts="a variant's own bare placeholder delegates also when the enum carries a default format")], True)
+    # "in every other attribute-driven case the caller's flags leave the output unchanged": a bare enum-level `{_variant}` on a derive OTHER than
+    # Display is such a case (it renders the variant and interpolates the text) - the shape is C07's, shared
+    from . import c07
+    sh = c07.bare_variant_flags_shape()
+    sh.name = "c05_bare_variant_on_non_display_derives"
+    out.append(sh)
     # 'an index that denotes no argument must not delegate' seen from the user's side: format_args! has to see the literal and reject it
     # (fix 445ad48).  Must-not-compile programs, decided by rustc while the harness crate is built - not a solver result.
     from ..shapes import reject_shape
